@@ -388,6 +388,8 @@ func runC12(c *Ctx, r *Report) {
 	r.Doc("R-C12.5", "in the decode closure a return with a non-nil error carries a nil value (callers filter failed blocks by the value)")
 	r.Doc("R-C12.6", "a block that fails to load or decode costs nothing but itself: the worker still returns its slot, decrements the in-progress counter and wakes the dispatcher on that path")
 	importRules(c, r, "C11", []string{"R-C11.1", "R-C11.6"}, "R-C12.6")
+	r.Doc("R-C12.8", "verifying a decoded entry keeps no state between calls (adopted from C07: a remembered failed key parse is a nil the next verification dereferences)")
+	importRules(c, r, "C07", []string{"R-C07.6"}, "R-C12.8", 0) // an expected-zero rule: nothing to adopt on a clean tree
 	r.Doc("R-C12.7", "on the decode path every error result is examined before the next step overwrites it: a failed step never hands its zero values on as if it had succeeded")
 	{
 		scope := decodeScope(c)
